@@ -21,7 +21,9 @@
         cd <dir> && <prefix 1> && ... && <prefix n> && <command>
     over the enclosing blocks, outermost first, where <dir> follows the usual rule
     of cd (an absolute or ~ path starts afresh, a relative one is appended, spaces
-    escaped) and is omitted when empty; sudo wraps that string with the prompt,
+    escaped) and is omitted when empty; every call is otherwise judged exactly like a
+    single run (part A: options incl. timeout, streams, echo, environment), with its
+    own keyword arguments; sudo wraps the composed string with the prompt,
     [--preserve-env] naming the variables of the EFFECTIVE env option and the user
     flags; a call whose options are refused starts nothing and raises; after the
     program, however it ended -- by an Exception, by KeyboardInterrupt, SystemExit or
@@ -110,7 +112,7 @@ Definition env_ok (parent : env) (envv replace : oval) (e : env) : bool :=
             (map fst parent ++ map fst new ++ map fst e).
 
 Definition start_ok (c : config) (parent : env) (command : string) (k : kwargs)
-           (started : call) : bool :=
+           (started : option (string * oval * env)) : bool :=
   if truthy (want c k Dry) then match started with None => true | Some _ => false end
   else match started with
        | Some (cmd, sh, e) =>
@@ -188,12 +190,20 @@ Definition expected_raise (c : config) (k : kwargs) (fails : bool) : option xkin
       then Some XUnexpected else None
   end.
 
-Definition call_ok (c : config) (parent : env) (command : string) (k : kwargs)
-           (started : call) : bool :=
-  match rejected c k with
-  | Some _ => match started with None => true | Some _ => false end
-  | None => start_ok c parent command k started
-  end.
+(** what sudo hands on to the run as watchers: the given list (None / absent: the
+    configured one) followed by its own responder *)
+Definition spec_sudo_kwargs (c : config) (k : kwargs) : kwargs :=
+  let base := match kw k Watchers with
+              | Some (OList l) => l
+              | Some ONone | None =>
+                  match (match cf c Watchers with Some v => v | None => default Watchers end) with
+                  | OList l => l
+                  | _ => []
+                  end
+              | Some _ => []
+              end in
+  mkKw (fun o => match o with Watchers => Some (OList (base ++ ["<sudo>"])) | _ => kw k o end)
+       (kw_timeout k) (kw_extra k).
 
 Definition sudo_wrapped (cc : ctxcfg) (user_kw : option oval) (k : kwargs) (prefixed : string)
   : string :=
@@ -211,15 +221,16 @@ Fixpoint judge_stmt (cc : ctxcfg) (fs : list block) (s : stmt) (obs : list call)
   match s with
   | SRun cmd k fails =>
       match obs with
-      | c :: rest => (call_ok (cc_run cc) (cc_parent cc) (composed fs cmd) k c, rest,
+      | c :: rest => (spec_ok_opts (cc_run cc) (cc_parent cc) (composed fs cmd) k c, rest,
                       expected_raise (cc_run cc) k fails)
       | [] => (false, [], None)
       end
   | SSudo cmd u k fails =>
       match obs with
       | c :: rest =>
-          (call_ok (cc_run cc) (cc_parent cc) (sudo_wrapped cc u k (composed fs cmd)) k c,
-           rest, expected_raise (cc_run cc) k fails)
+          (spec_ok_opts (cc_run cc) (cc_parent cc) (sudo_wrapped cc u k (composed fs cmd))
+                        (spec_sudo_kwargs (cc_run cc) k) c,
+           rest, expected_raise (cc_run cc) (spec_sudo_kwargs (cc_run cc) k) fails)
       | [] => (false, [], None)
       end
   | SRaise x => (true, obs, Some x)
@@ -253,7 +264,7 @@ Fixpoint judge_list (cc : ctxcfg) (fs : list block) (l : list stmt) (obs : list 
 Definition cstate_eqb (a b : cstate) : bool :=
   list_eqb String.eqb (prefixes a) (prefixes b) && list_eqb String.eqb (cwds a) (cwds b).
 
-(** [calls]: what [start] received, call by call ([None]: nothing was started);
+(** [calls]: what was observed of each run / sudo call, in order;
     [final]: the two stacks after the program; [raised]: what came out of it. *)
 Definition spec_ok_ctx (cc : ctxcfg) (prog : list stmt)
            (calls : list call) (final : cstate) (raised : option xkind) : bool :=
